@@ -13,6 +13,7 @@ import (
 	"net"
 	"net/http"
 	"net/textproto"
+	"runtime"
 	"sort"
 	"strconv"
 	"strings"
@@ -25,6 +26,7 @@ import (
 
 	"github.com/prometheus/client_golang/prometheus"
 
+	"github.com/andydunstall/piko/pkg/auth"
 	"github.com/andydunstall/piko/pkg/log"
 	"github.com/andydunstall/piko/server/cluster"
 	"github.com/andydunstall/piko/server/config"
@@ -134,7 +136,27 @@ type upKey struct {
 	ep        string
 }
 
+// tokenVerifier accepts exactly the harness token (no endpoint restriction, no expiry).
+type tokenVerifier struct{}
+
+const harnessToken = "verif-token"
+
+func (tokenVerifier) Verify(token string) (*auth.Token, error) {
+	if token != harnessToken {
+		return nil, auth.ErrInvalidToken
+	}
+	return &auth.Token{}, nil
+}
+
+// nodeCfg is the generated (legal) configuration of one node's proxy server.
+type nodeCfg struct {
+	conf config.ProxyConfig
+	auth bool
+}
+
 type routeEngine struct {
+	cfgs     map[int]*nodeCfg
+	authOn   bool
 	nodes    []*node
 	deadAddr string
 	deadFd   int
@@ -151,6 +173,9 @@ type routeEngine struct {
 
 // New returns the engine.
 func New() Engine {
+	// the check runs one harness process per shard: keep each one small so that a loaded
+	// machine is not oversubscribed further (requests are sequential anyway)
+	runtime.GOMAXPROCS(4)
 	e := &routeEngine{}
 	e.curKind.Store("http")
 	return e
@@ -172,6 +197,8 @@ func (e *routeEngine) shutdown() {
 
 func (e *routeEngine) Reset() {
 	e.shutdown()
+	e.cfgs = map[int]*nodeCfg{}
+	e.authOn = false
 	e.ups = map[upKey]*fakeUp{}
 	e.order = nil
 }
@@ -197,10 +224,19 @@ func (e *routeEngine) mkNodes(n int) {
 	}
 	e.deadFd = fd
 	e.deadAddr = "127.0.0.1:" + strconv.Itoa(sa.(*syscall.SockaddrInet4).Port)
-	conf := config.Default().Proxy
-	conf.Timeout = 3 * time.Second
-	conf.AccessLog.Disable = true
 	for i := 0; i < n; i++ {
+		conf := defaultConf()
+		var verifier *auth.MultiTenantVerifier
+		if c, ok := e.cfgs[i]; ok {
+			conf = c.conf
+			if c.auth {
+				verifier = auth.NewMultiTenantVerifier(tokenVerifier{}, nil)
+				e.authOn = true
+			}
+		}
+		if err := conf.AccessLog.Validate(); err != nil {
+			panic("generated configuration is not legal: " + err.Error())
+		}
 		ln, err := net.Listen("tcp", "127.0.0.1:0")
 		if err != nil {
 			panic(err)
@@ -211,10 +247,57 @@ func (e *routeEngine) mkNodes(n int) {
 		nd.mgr = upstream.NewLoadBalancedManager(nd.cs, nil)
 		nd.reg = prometheus.NewRegistry()
 		nd.reg.MustRegister(nd.mgr.Metrics().RemoteRequestsTotal)
-		nd.srv = proxy.NewServer(nd.mgr, conf, nil, nil, nil, log.NewNopLogger())
+		nd.srv = proxy.NewServer(nd.mgr, conf, nil, verifier, nil, log.NewNopLogger())
 		go func() { _ = nd.srv.Serve(nd.ln) }()
 		e.nodes = append(e.nodes, nd)
 	}
+}
+
+func defaultConf() config.ProxyConfig {
+	conf := config.Default().Proxy
+	conf.Timeout = 3 * time.Second
+	return conf
+}
+
+// parseCfg: cfg <i> al=<0|1> lvl=<level> qa=<hex,..> qb=.. pa=.. pb=.. to=<ms> rt=<ms> rht=<ms> wt=<ms> it=<ms> mhb=<n> auth=<0|1>
+func parseCfg(ws []string) *nodeCfg {
+	c := &nodeCfg{conf: defaultConf()}
+	ms := func(v string) time.Duration { return time.Duration(Atoi(v)) * time.Millisecond }
+	for _, kv := range ws {
+		p := strings.SplitN(kv, "=", 2)
+		if len(p) != 2 {
+			continue
+		}
+		switch p[0] {
+		case "al":
+			c.conf.AccessLog.Disable = p[1] == "0"
+		case "lvl":
+			c.conf.AccessLog.Level = p[1]
+		case "qa":
+			c.conf.AccessLog.RequestHeaders.AllowList = listTok(p[1])
+		case "qb":
+			c.conf.AccessLog.RequestHeaders.BlockList = listTok(p[1])
+		case "pa":
+			c.conf.AccessLog.ResponseHeaders.AllowList = listTok(p[1])
+		case "pb":
+			c.conf.AccessLog.ResponseHeaders.BlockList = listTok(p[1])
+		case "to":
+			c.conf.Timeout = ms(p[1])
+		case "rt":
+			c.conf.HTTP.ReadTimeout = ms(p[1])
+		case "rht":
+			c.conf.HTTP.ReadHeaderTimeout = ms(p[1])
+		case "wt":
+			c.conf.HTTP.WriteTimeout = ms(p[1])
+		case "it":
+			c.conf.HTTP.IdleTimeout = ms(p[1])
+		case "mhb":
+			c.conf.HTTP.MaxHeaderBytes = Atoi(p[1])
+		case "auth":
+			c.auth = p[1] == "1"
+		}
+	}
+	return c
 }
 
 // realAddr maps the symbolic address of an op line to the real one.
@@ -334,6 +417,10 @@ func (e *routeEngine) do(r reqSpec) reqResult {
 	if r.hasFwd {
 		fmt.Fprintf(&b, "x-piko-forward: %s\r\n", r.fwdHdr)
 	}
+	if e.authOn {
+		fmt.Fprintf(&b, "Authorization: Bearer %s\r\n", harnessToken)
+	}
+	b.WriteString("User-Agent: verif-route\r\nX-Custom-Hdr: 1\r\n")
 	for _, v := range r.connRaw {
 		fmt.Fprintf(&b, "Connection: %s\r\n", v)
 	}
@@ -492,6 +579,27 @@ func (e *routeEngine) req(r reqSpec, o *Out) string {
 	wasSettled := e.settled()
 
 	res := e.do(r)
+	// The client-side watchdog fired (machine overloaded): if the request provably had no
+	// effect yet (no upstream was dialled, so no Select returned a local upstream, the only
+	// call with a side effect), let things settle and send it again - at most three times.
+	for attempt := 0; attempt < 3 && res.code == "err"; attempt++ {
+		time.Sleep(300 * time.Millisecond)
+		e.mu.Lock()
+		untouched := len(e.deliveries) == 0 && len(e.goneDialed) == 0
+		e.mu.Unlock()
+		if !untouched {
+			break
+		}
+		o.Count("retry-after-client-timeout")
+		for i := range e.accepted {
+			atomic.StoreInt64(&e.accepted[i], 0)
+		}
+		atomic.StoreInt64(&e.totalAccepted, 0)
+		for i, n := range e.nodes {
+			before[i] = remoteTotals(n)
+		}
+		res = e.do(r)
+	}
 
 	counts := make([]int, len(e.nodes))
 	total := 0
@@ -707,6 +815,10 @@ func listTok(t string) []string {
 
 func (e *routeEngine) Step(ws []string, o *Out) string {
 	switch ws[0] {
+	case "cfg":
+		e.cfgs[Atoi(ws[1])] = parseCfg(ws[2:])
+		o.Count("cfg")
+		return "ok"
 	case "nodes":
 		e.mkNodes(Atoi(ws[1]))
 		return "ok"
@@ -885,6 +997,7 @@ func (e *routeEngine) Gen(r *rand.Rand, n int, tier string, w *bufio.Writer) {
 	for c := 0; c < n; c++ {
 		fmt.Fprintf(w, "case route-%d\n", c)
 		N := 2 + r.Intn(3)
+		genCfg(r, N, w)
 		fmt.Fprintf(w, "nodes %d\n", N)
 		eps := append([]string(nil), epAlphabet...)
 		r.Shuffle(len(eps), func(i, j int) { eps[i], eps[j] = eps[j], eps[i] })
@@ -1121,6 +1234,55 @@ func (e *routeEngine) Gen(r *rand.Rand, n int, tier string, w *bufio.Writer) {
 			sp, ip := libResults(h)
 			fmt.Fprintf(w, "epid %s %s %s %s\n", Hx(h), hdrTok(Pick(r, wildHeaders)), sp, ip)
 		}
+	}
+}
+
+var cfgHeaders = []string{"user-agent", "X-Piko-Forward", "x-piko-forward", "x-piko-endpoint", "X-PIKO-ENDPOINT",
+	"connection", "Host", "authorization", "Authorization", "x-forwarded-for", "x-custom-hdr", "Content-Type", "upgrade"}
+
+func hdrList(r *rand.Rand) string {
+	n := 1 + r.Intn(4)
+	var xs []string
+	for i := 0; i < n; i++ {
+		xs = append(xs, Hx(Pick(r, cfgHeaders)))
+	}
+	return strings.Join(xs, ",")
+}
+
+// genCfg writes a legal, randomised configuration for every node of the case (half of the
+// nodes keep the defaults).  Nothing in it may influence routing.
+func genCfg(r *rand.Rand, N int, w *bufio.Writer) {
+	authOn := r.Intn(5) == 0
+	for i := 0; i < N; i++ {
+		if r.Intn(2) == 0 && !authOn {
+			continue
+		}
+		line := fmt.Sprintf("cfg %d", i)
+		if r.Intn(4) == 0 {
+			line += " al=0"
+		} else {
+			line += " al=1 lvl=" + Pick(r, []string{"debug", "info", "warn", "error"})
+		}
+		switch r.Intn(3) { // allow list XOR block list (Validate)
+		case 0:
+			line += " qa=" + hdrList(r)
+		case 1:
+			line += " qb=" + hdrList(r)
+		}
+		switch r.Intn(3) {
+		case 0:
+			line += " pa=" + hdrList(r)
+		case 1:
+			line += " pb=" + hdrList(r)
+		}
+		if r.Intn(2) == 0 {
+			line += fmt.Sprintf(" to=%d rt=%d rht=%d wt=%d it=%d mhb=%d", 4000+r.Intn(5000), 5000+r.Intn(10000),
+				5000+r.Intn(10000), 5000+r.Intn(10000), 1000+r.Intn(60000), 1<<uint(13+r.Intn(8)))
+		}
+		if authOn {
+			line += " auth=1"
+		}
+		fmt.Fprintln(w, line)
 	}
 }
 
